@@ -415,7 +415,7 @@ func rtRun(o *hc.Out, dir string, t *table, op opts, wantProc bool, tag string) 
 	}
 	sigBase := fmt.Sprintf("rt|%s|%s|%s|%s", op.sig(), r.path, textClasses(t), dimClass(t))
 	if r.encErr != nil && r.encErr != query.DataEmpty && len(r.data) > 0 {
-		lawFail(o, "refuse:"+name+":partial_output", replay(map[string]interface{}{"error": firstLine(r.encErr.Error())}))
+		lawFail(o, "refuse:"+name+":"+partialOutputLaw(t, op, r.why, r.data), replay(map[string]interface{}{"error": firstLine(r.encErr.Error()), "emitted_bytes": len(r.data)}))
 	}
 	if r.refuse && r.outcome != "refused" && r.outcome != "dataempty" {
 		// written although the format cannot spell it: the read-back decides whether it matters
